@@ -305,6 +305,8 @@ def check(run):
         else:
             stream_monitor(run, arg, name, cases, docs, o)
     stream_pages(run, rng, 2000 if thorough else 250, 'flex-pages')
+    stream_twice(run, rng, 1500 if thorough else 200, 'laid-out-twice')
+    stream_witnesses(run, 'witnesses')
 
 
 def replay(data):
@@ -325,6 +327,19 @@ def replay(data):
     if d.get('stream', '').startswith('grid-place') or d.get('stream', '').startswith('grid-tracks'):
         import p_c12grid
         return p_c12grid.grid_replay(d)
+    if d.get('stream') == 'witnesses':
+        w = [x for x in WITNESSES if x[0] == d['witness']][0]
+        (st, o), = common.run_impl('impl_c12', 'render_container', [{'html': WITNESS_STYLE + w[1]}], limit=30)
+        ok = st == 'ok' and o['c'] is not None and len(o['items']) == w[2] and o['pages'] <= w[3]
+        print('replay:', st, None if st != 'ok' else (o['pages'], len(o['items'])))
+        return 0 if ok else 1
+    if d.get('stream') == 'laid-out-twice':
+        c = d['case']
+        (s1, o1), (s2, o2) = common.run_impl('impl_c12', 'render_container',
+                                             [{'html': twice_html(c, False)}, {'html': twice_html(c, True)}])
+        bad = judge_twice(c, o1, o2) if s1 == s2 == 'ok' else [(s1, s2)]
+        print('replay:', bad[:5])
+        return 1 if bad else 0
     if d.get('stream') == 'flex-pages':
         c = d['case']
         (st, o), = common.run_impl('impl_c12', 'render_flex_pages', [{'html': pages_html(c)}])
@@ -544,12 +559,6 @@ def stream_monitor(run, kind, name, cases, docs, outs):
         bad = judge(c, o)
         for clause, detail in bad[:1]:
             clauses[clause] = clauses.get(clause, 0) + 1
-            if kind == 'grid' and clause.endswith('partition-container') and any('minmax' in t for t in c['cols'] + c['rows']):
-                # reported: the "find the size of an fr" loop of _resolve_tracks_sizes (1.4) does not restart with
-                # the frozen track's base size removed, so the tracks overflow the container
-                report_known(run, 'grid:fr-freeze-no-restart', 'grid tracks overflow: ' + clause,
-                             {'stream': name, 'case': c, 'html': d['html'], 'clause': clause, 'detail': detail})
-                continue
             nbad += 1
             if nbad <= 3:
                 run.fail('monitor clause %s fails: %s' % (clause, detail),
@@ -751,7 +760,7 @@ def gen_pages(rng):
     while not col and ph * 2 > total / 1.5 and ph > 40:
         ph -= 10
     return {'kind': 'pages', 'col': col, 'items': items, 'ph': ph, 'gap': rng.choice([0, 0, 5, 10]),
-            'before': rng.choice([0, 0, 1, 3]), 'reverse': False}
+            'before': rng.choice([0, 0, 1, 3, ph // 10]), 'reverse': False}
 
 
 def pages_html(c):
@@ -846,3 +855,119 @@ def stream_pages(run, rng, n, name):
                     rule='column / wrapping row flex containers of 4..9 text items (1..7 lines each) on pages of 40..80px: '
                          'every line of every item exactly once and in order over the pages, order-modified document order '
                          'on each page and across pages, column items stacked a gap apart, lines inside the page')
+
+
+# ------------------------------------------------------------------------------------------ laid out twice
+# Metamorphic monitor: a flex / grid container pushed to the next page by break-inside: avoid is laid out twice;
+# its items must get the geometry (relative to the container) they get when the container is laid out once.
+
+def gen_twice(rng):
+    kind = rng.choice(['flex', 'grid'])
+    n = rng.randint(2, 6)
+    items = [{'text': 'abcdefgh'[:rng.randint(1, 8)] if rng.random() < 0.8 else '', 'lines': rng.choice([1, 1, 2, 3]),
+              'w': rng.choice([None, 60, 90, 120]), 'self': rng.choice(['auto', 'auto', 'stretch', 'flex-start', 'center'])}
+             for _ in range(n)]
+    return {'kind': 'twice', 'what': kind, 'items': items, 'H': rng.choice([None, 80, 100, 120]),
+            'W': rng.choice([100, 150, 200]), 'cols': rng.choice(['auto auto', 'auto 1fr', 'auto auto auto', '1fr auto']),
+            'gap': rng.choice([0, 5])}
+
+
+def twice_html(c, twice):
+    if c['what'] == 'flex':
+        st = ['display:flex', 'flex-wrap:wrap', 'width:%dpx' % c['W'], 'gap:%dpx' % c['gap']]
+    else:
+        st = ['display:grid', 'grid-template-columns:%s' % c['cols'], 'width:%dpx' % c['W'], 'gap:%dpx' % c['gap']]
+    if c['H'] is not None:
+        st.append('height:%dpx' % c['H'])
+    out = ['<style>@page{size:400px 300px;margin:0}body{margin:0;font-family:weasyprint;font-size:10px;line-height:10px}'
+           '</style>']
+    if twice:
+        # the wrapper avoids breaks: when the container does not fit after the filler the wrapper is given up and
+        # laid out again on the next page (grid containers themselves ignore break-inside: avoid - reported)
+        out.append('<div style="height:280px"></div><div style="break-inside:avoid">')
+    out.append('<div id="c" style="%s">' % ';'.join(st))
+    for i, it in enumerate(c['items']):
+        s = ['align-self:%s' % it['self']]
+        if it['w'] is not None and c['what'] == 'flex':
+            s.append('width:%dpx' % it['w'])
+        body = '<br>'.join([it['text']] * it['lines']) if it['text'] else ''
+        out.append('<div id="i%d" style="%s">%s</div>' % (i, ';'.join(s), body))
+    out.append('</div>' + ('</div>' if twice else ''))
+    return ''.join(out)
+
+
+def judge_twice(c, once, twice):
+    for o in (once, twice):
+        if o['c'] is None or len(o['items']) != len(c['items']) or not _numeric(o['c']) or \
+                not all(_numeric(r) for r in o['items']):
+            return [('items-kept-numeric', None)]
+    if twice['pages'] < 2:
+        return []          # the container fitted after the filler: laid out once, nothing to compare
+    bad = []
+    for a, b in zip(once['items'], twice['items']):
+        ra = (a['x'] - once['c']['x'], a['y'] - once['c']['y'], a['w'], a['h'])
+        rb = (b['x'] - twice['c']['x'], b['y'] - twice['c']['y'], b['w'], b['h'])
+        if a['id'] != b['id'] or max(abs(p - q) for p, q in zip(ra, rb)) > EPS:
+            bad.append(('same-layout-when-laid-out-twice', (a['id'], ra, rb)))
+    if abs(once['c']['h'] - twice['c']['h']) > EPS or abs(once['c']['w'] - twice['c']['w']) > EPS:
+        bad.append(('same-container-size-when-laid-out-twice', (once['c']['h'], twice['c']['h'])))
+    return bad
+
+
+def stream_twice(run, rng, n, name):
+    cases = [gen_twice(rng) for _ in range(n)]
+    docs = [{'html': twice_html(c, t)} for c in cases for t in (False, True)]
+    outs = common.run_impl('impl_c12', 'render_container', docs, limit=60)
+    clauses, nbad, compared = {}, 0, 0
+    for k, c in enumerate(cases):
+        (s1, o1), (s2, o2) = outs[2 * k], outs[2 * k + 1]
+        html = docs[2 * k + 1]['html']
+        if s1 != 'ok' or s2 != 'ok':
+            o = o1 if s1 != 'ok' else o2
+            run.fail('laid out twice: render %s' % (s1 if s1 != 'ok' else s2), {'stream': name, 'case': c, 'html': html, 'outcome': o},
+                     signature='crash:%s' % ((o or {}).get('site'),) if 'exc' in (s1, s2) else 'timeout')
+            continue
+        compared += o2['pages'] >= 2
+        for clause, detail in judge_twice(c, o1, o2)[:1]:
+            clauses[clause] = clauses.get(clause, 0) + 1
+            nbad += 1
+            if nbad <= 3:
+                run.fail('laid out twice: clause %s fails: %s' % (clause, detail),
+                         {'stream': name, 'case': c, 'html': html, 'clause': clause, 'detail': detail},
+                         signature='twice:%s' % clause)
+    run.count(name, len(cases), [(c['what'], len(c['items']), c['H'], c['W'], c['cols']) for c in cases],
+              samples=[docs[1]['html'][:800]])
+    run.stream_info(name, judged_in='python', failing_clauses=clauses, compared_pairs=compared,
+                    rule='wrapping flex containers / grids with auto and fr columns, text items, align-self variety; rendered '
+                         'alone and after a filler with break-inside: avoid (second layout on the next page): item rectangles '
+                         'relative to the container and the container size must be equal')
+
+
+# ------------------------------------------------------------------------------------------ fixed witnesses
+# Minimal inputs of repaired findings that the random grammars do not produce (checked on every run).
+WITNESSES = [
+    ('F86-flex-inline-table-item',
+     '<div id="c" style="display:flex;width:200px"><table id="i0" style="display:inline-table"><tr><td>ab</td></tr></table>'
+     '<div id="i1" style="width:30px;height:10px"></div></div>', 2, 1),
+    ('F86-grid-inline-table-item',
+     '<div id="c" style="display:grid;width:200px"><table id="i0" style="display:inline-table"><tr><td>ab</td></tr></table>'
+     '</div>', 1, 1),
+    ('F169-flex-first-item-does-not-fit',
+     '<style>@page{size:50px 10px;margin:1px}</style><table><tfoot></tfoot><tr><td>'
+     '<div id="c" style="display:flex;height:1px"><div id="i0">a</div></div></td></tr></table>', 1, 4),
+]
+WITNESS_STYLE = ('<style>body{margin:0;font-family:weasyprint;font-size:10px;line-height:10px}</style>')
+
+
+def stream_witnesses(run, name):
+    docs = [{'html': WITNESS_STYLE + html} for _, html, _, _ in WITNESSES]
+    outs = common.run_impl('impl_c12', 'render_container', docs, limit=30)
+    for (wid, html, nitems, maxpages), d, (st, o) in zip(WITNESSES, docs, outs):
+        ok = st == 'ok' and o['c'] is not None and len(o['items']) == nitems and o['pages'] <= maxpages
+        if not ok:
+            run.fail('witness %s: %s' % (wid, st if st != 'ok' else 'pages=%s items=%s' % (o['pages'], len(o['items']))),
+                     {'stream': name, 'witness': wid, 'html': d['html'], 'outcome': o if st != 'ok' else None},
+                     signature='witness:%s' % wid)
+    run.count(name, len(WITNESSES), [w[0] for w in WITNESSES], samples=[WITNESSES[0][1][:300]])
+    run.stream_info(name, rule='minimal inputs of repaired findings outside the random grammars: renders without exception / '
+                               'timeout, the container keeps its items, bounded number of pages')
